@@ -1,6 +1,6 @@
 """C14 - k-way merge returns every row once, globally sorted by score (E1).
 
-Families of individually sorted inputs over scores {1,2,3} (every tie structure, every split of
+Families of individually sorted inputs over scores {-1,0,1} (every tie structure, every split of
 N rows into 1..4 inputs, plus 8 single-row inputs), text and Parquet, every reader chunk size,
 `utils.merge_sort` and every access path of `MergedTabularDataReader` / `merge_readers`,
 descending and ascending.  Negative families (one adjacent inversion in one input) must not
@@ -188,7 +188,7 @@ def run(ctx):
         "access_paths": ["merge_sort"] + MERGED + ["chunked"],
     }
     ctx.info["explanation"] = (
-        f"every family of sorted inputs over scores 1..3 with <= {pos[0]} rows in <= {pos[1]} inputs (at {pos[0]} rows: "
+        f"every family of sorted inputs over scores -1..1 with <= {pos[0]} rows in <= {pos[1]} inputs (at {pos[0]} rows: "
         f"<= {pos[2]} inputs) x text/Parquet x descending/ascending x reader chunk 1..L+1 x 7 access paths; "
         f"negative families with <= {neg[0]} rows (at {neg[0]} rows: <= {neg[2]} inputs)"
     )
